@@ -33,6 +33,8 @@ def shape(v, depth=0, modname="__c01__"):
     s["v"] = repr(v)
   if v is None:
     s["v"] = "None"
+  if isinstance(v, (list, set, dict)) or s["user"]:
+    s["id"] = id(v)     # identity of mutable objects: lets the checker see aliasing
   if isinstance(v, (list, tuple, set, frozenset)):
     items = list(v)
     if isinstance(v, (set, frozenset)):
